@@ -19,6 +19,7 @@ import (
 	"context"
 	"errors"
 	"fmt"
+	"math"
 	"testing"
 	"time"
 
@@ -32,6 +33,9 @@ func TestSim(t *testing.T) {
 }
 
 var orderMenu = []int{-2, -1, 0, 1, 1, 3, 7}
+
+// rarely an order from the ends of the int range (differences between orders then overflow)
+var extremeOrders = []int{math.MaxInt, math.MinInt, math.MaxInt - 1, math.MinInt + 1}
 
 const (
 	kImmediate  = iota // returns as soon as the context is cancelled
@@ -222,6 +226,10 @@ func (w *world) newInst(name string, initial bool) *inst {
 		kind:  s.Weighted(3, 2, 2, 2, 1, 1),
 		work:  1 + s.Choose(3),
 		sleep: simrt.Knob(s, time.Millisecond, 5*time.Millisecond, 50*time.Millisecond),
+	}
+	if s.Choose(10) == 9 {
+		in.order = extremeOrders[s.Choose(len(extremeOrders))]
+		s.Probe("worker-with-extreme-order")
 	}
 	w.insts = append(w.insts, in)
 	return in
